@@ -33,4 +33,33 @@ def genSourceScope (e : Env) (s : Src) : String := Id.run do
            return 'shared'
 -/
 
+/-- `proximity`, the sort key inside `SourcedStateBackend.get_sources` of avocado_i2n/states/pool.py (`source` = `s.net + ':' + s.path`; `source_params` = the parameters of the source's net, or the own ones) -/
+def genProximity (e : Env) (s : Src) : Int := Id.run do
+  let mut score : Int := (0 : Int)
+  if (e.gateway == (e.srcGateway s)) then
+    score := (score + (1000 : Int))
+  if (e.host == (e.srcHost s)) then
+    score := (score + (100 : Int))
+  if (e.swarmPool == s.path) then
+    score := (score + (10 : Int))
+  else
+    score := (score + (1 : Int))
+  return score
+
+/- the Python it was generated from (comments and docstring dropped):
+   def proximity(source: str) -> int:
+       score = 0
+       source_net, source_path = source.split(':')
+       source_params = params.object_params(source_net) if source_net else params
+       if params['nets_gateway'] == source_params['nets_gateway']:
+           score += 1000
+       if params['nets_host'] == source_params['nets_host']:
+           score += 100
+       if params['swarm_pool'] == source_path:
+           score += 10
+       else:
+           score += 1
+       return score
+-/
+
 end I2N.Extracted.GenPool
